@@ -295,6 +295,21 @@ Fixpoint update_nth {A} (i : nat) (x : A) (l : list A) : list A :=
   | y :: r, S j => y :: update_nth j x r
   end.
 
+(* Base.get() of a scalar variable: a single element is handed out bare, otherwise the list / text / bytes *)
+Definition scal_get (v : val) : plain :=
+  match v with
+  | VNum _ [z] => PInt z
+  | VNum _ l => PList (map PInt l)
+  | VFlt _ [b] => PFloat b
+  | VFlt _ l => PList (map PFloat l)
+  | VBool [b] => PBool b
+  | VBool l => PList (map PBool l)
+  | VText _ cps => PStr cps
+  | VBin [b] => PInt (Z.of_N b)
+  | VBin l => PBytes l
+  | _ => PNone
+  end.
+
 Fixpoint py_set (t : ty) (cur : val) (p : plain) {struct t} : res val :=
   match t with
   | TScal k count => set_scal k count cur p
@@ -341,7 +356,13 @@ Fixpoint py_set (t : ty) (cur : val) (p : plain) {struct t} : res val :=
   | TDyn allowed count =>
     match p with
     | PTyped k q =>
-      if allowed_has allowed (DScal k) then set_scal k (-1) (default (TScal k (-1))) q else Err EValue
+      (* the wrapper object is built first (its own count: none); since D39 it then has to fit this Dynamic's count like a plain
+         value: value.__class__(value.get(), count=self.count) *)
+      if allowed_has allowed (DScal k) then
+        do v <- set_scal k (-1) (default (TScal k (-1))) q;
+        do _ <- (if (0 <=? count)%Z then set_scal k count (default (TScal k count)) (scal_get v) else Ok v);
+        Ok v
+      else Err EValue
     | _ =>
       do m <- match_type allowed count p;
       match m with
